@@ -158,6 +158,7 @@ mut('C05-fold-seeds-with-first-element', 'C05', P, "\t\tacc := m.Empty()\n\n\t\t
 mut('C09-try-pipef-lifts', 'C09', 'pipe/fork/function.go', "func (f try[A, B]) pipef() pipe.F[A, B] {\n\treturn pipe.Try(f)", "func (f try[A, B]) pipef() pipe.F[A, B] {\n\treturn pipe.Lift(f)", 'fork.Try handed to a delegating stage aborts instead of continuing')
 mut('C09-partition-nil-on-error', 'C09', FK, "\t\tsel := func(x bool, err error) chan<- A {\n\t\t\tif x && err == nil {\n\t\t\t\treturn lout\n\t\t\t}\n\t\t\treturn rout\n\t\t}", "\t\tsel := func(x bool, err error) chan<- A {\n\t\t\tif err != nil {\n\t\t\t\treturn nil\n\t\t\t}\n\t\t\tif x {\n\t\t\t\treturn lout\n\t\t\t}\n\t\t\treturn rout\n\t\t}", 'a failing predicate parks the worker on a nil channel')
 mut('C06-filter-returns-on-error', 'C06', P, "\t\t\tif take, err := f.Apply(a); take && err == nil {\n\t\t\t\tselect {\n\t\t\t\tcase out <- a:\n\t\t\t\tcase <-ctx.Done():\n\t\t\t\t\treturn\n\t\t\t\t}\n\t\t\t}\n\t\t}\n\t}()\n\n\treturn out\n}\n\n// ForEach", "\t\t\ttake, err := f.Apply(a)\n\t\t\tif err != nil {\n\t\t\t\tselect {}\n\t\t\t}\n\t\t\tif take {\n\t\t\t\tselect {\n\t\t\t\tcase out <- a:\n\t\t\t\tcase <-ctx.Done():\n\t\t\t\t\treturn\n\t\t\t\t}\n\t\t\t}\n\t\t}\n\t}()\n\n\treturn out\n}\n\n// ForEach", 'Filter blocks forever when its predicate returns an error')
+mut('C14-map-global-scratch', 'C14', SQ, "func (seq fmap[A, B]) Value() B {\n\treturn seq.f(seq.Seq.Value())\n}", "var mapScratch any\n\nfunc (seq fmap[A, B]) Value() B {\n\tmapScratch = seq.f(seq.Seq.Value())\n\treturn mapScratch.(B)\n}", 'a package-level scratch variable: visible only when independent iterators are used from several goroutines')
 
 EQUIVALENT = {'C02-no-container-check', 'C04-codec-get-skips-fmap', 'C06-throttle-data-no-ctx', 'C15-map-stale-key', 'C05-filter-or', 'C05-partition-swapped-capacity', 'C10-empty-counted-per-worker', 'C14-foreach-swallows-last-error', 'C19-slice-cons-append', 'C04-setter-get-leaks'}
 
